@@ -78,6 +78,27 @@ def run(ctx):
                 if c[0] == "intother" and Arg(1)(c[1]):
                     got["other"] = rd.kind
         key = "%s:%s" % (rule, f.id)
+        if got != {0: "ok_true", 1: "ok_false", "other": "err"}:
+            # the same table spelled with comparisons / a computed boolean (`if id > 1 { Err } .. Ok(id < 1)`): decide by value
+            from rules.c01 import _evn
+            reach, lits, any_branch = ctx.value_walker(f, Arg(1))
+            tab = {}
+            for v in (0, 1, 2, 3, 255, 256, (1 << 64) - 1):
+                blocks = reach(v)
+                outs = set()
+                for rd in g.retdefs:
+                    if rd.block not in blocks:
+                        continue
+                    k = rd.kind
+                    if k == "ok" and rd.expr is not None and rd.expr[0] == "agg" and len(rd.expr[2]) == 1:
+                        val = _evn(rd.expr[2][0], {"params": {1: v}})
+                        k = {True: "ok_true", False: "ok_false"}.get(val, "ok?")
+                    outs.add(k)
+                tab[v] = sorted(outs)
+            if tab.get(0) == ["ok_true"] and tab.get(1) == ["ok_false"] and all(tab[v] == ["err"] for v in tab if v > 1):
+                got = {0: "ok_true", 1: "ok_false", "other": "err"}
+            else:
+                got = tab
         if got == {0: "ok_true", 1: "ok_false", "other": "err"}:
             ctx.ok(rule, key, "0 -> Ok(true), 1 -> Ok(false), otherwise Err", loc=f.loc)
         else:
